@@ -1,6 +1,8 @@
 package sym
 
 import (
+	"os"
+	"path/filepath"
 	"bufio"
 	"crypto/sha1"
 	"fmt"
@@ -166,6 +168,10 @@ func (s *Solver) runOn(p *proc, asserts []*Term, wantModel bool) (Result, Model,
 		}
 	}
 	text, vars := Render(asserts, p.name == "cvc5")
+	// the process is reset and the query asserted at its base level: an incremental session that
+	// lived in this process is gone (checkInc starts a fresh one)
+	p.inc = false
+	p.stack = nil
 	var sb strings.Builder
 	ms := int(s.Timeout / time.Millisecond)
 	if p.name == "cvc5" {
@@ -200,6 +206,9 @@ func (s *Solver) runOn(p *proc, asserts []*Term, wantModel bool) (Result, Model,
 		case strings.HasPrefix(l, "(error"):
 			note = l
 		}
+	}
+	if dumpDir != "" {
+		fmt.Fprintf(os.Stderr, "TRACEQ runOn %s -> %v note=%q lines=%q\n", p.name, res, note, lines)
 	}
 	if note != "" {
 		s.Stats.Errors++
@@ -541,6 +550,9 @@ func (p *proc) purge(level int) {
 }
 
 // checkInc runs PC ∧ extra on the incremental session of the primary solver.
+// VERIF_DUMPSMT=<dir>: append everything sent to each incremental solver process to a file there (diagnostics)
+var dumpDir = os.Getenv("VERIF_DUMPSMT")
+
 func (s *Solver) checkInc(p *proc, pc []*Term, extra []*Term, wantModel bool) (Result, Model, string) {
 	if p.cmd == nil || p.dead {
 		if err := p.start(); err != nil {
@@ -604,6 +616,12 @@ func (s *Solver) checkInc(p *proc, pc []*Term, extra []*Term, wantModel bool) (R
 		p.kill()
 		return Unknown, nil, note
 	}
+	if dumpDir != "" {
+		if f, err := os.OpenFile(filepath.Join(dumpDir, fmt.Sprintf("session_%s_%p.smt2", p.name, p)), os.O_APPEND|os.O_CREATE|os.O_WRONLY, 0o644); err == nil {
+			f.WriteString(sb.String())
+			f.Close()
+		}
+	}
 	if _, err := io.WriteString(p.in, sb.String()); err != nil {
 		return fail("write: " + err.Error())
 	}
@@ -652,6 +670,12 @@ func (s *Solver) checkInc(p *proc, pc []*Term, extra []*Term, wantModel bool) (R
 		}
 	}
 	io.WriteString(p.in, "(pop 1)\n")
+	if dumpDir != "" {
+		if f, err := os.OpenFile(filepath.Join(dumpDir, fmt.Sprintf("session_%s_%p.smt2", p.name, p)), os.O_APPEND|os.O_CREATE|os.O_WRONLY, 0o644); err == nil {
+			f.WriteString("(pop 1)\n")
+			f.Close()
+		}
+	}
 	p.purge(top - 1)
 	return res, model, note
 }
@@ -708,6 +732,9 @@ func (s *Solver) CheckPC(pc []*Term, extra []*Term, wantModel bool) (Result, Mod
 			s.Stats.Unsat++
 		}
 		s.cache[key] = cacheEnt{r, m}
+		if dumpDir != "" {
+			fmt.Fprintf(os.Stderr, "TRACEQ inc -> %v\n", r)
+		}
 		return r, m, note
 	}
 	s.Stats.Time += time.Since(t0)
@@ -735,5 +762,9 @@ func (s *Solver) CheckPC(pc []*Term, extra []*Term, wantModel bool) (Result, Mod
 		return r, m, note
 	}
 	s.Stats.IncFallbacks++
-	return s.Check(all, wantModel)
+	rr, mm, nn := s.Check(all, wantModel)
+	if dumpDir != "" {
+		fmt.Fprintf(os.Stderr, "TRACEQ fallback after inc=%v note=%q -> %v note=%q\n", r, note, rr, nn)
+	}
+	return rr, mm, nn
 }
